@@ -540,13 +540,33 @@ def do_check(pid, tier, seed, only=None, keep=False, jobs=None, no_replay=False)
         jobs = jobs or cfg.get("jobs_%s" % tier) or min(10, len(hs))
         results = []
         first = True
+        # memory budget: the address-space caps of concurrently running harnesses never add up to more than
+        # VERIF_MEM_BUDGET_GB (default 40), so that a check cannot drive the machine into the OOM killer by itself
+        import threading
+        budget = float(os.environ.get("VERIF_MEM_BUDGET_GB", "40"))
+        cond = threading.Condition()
+        used = [0.0]
+
+        def guarded(h, o):
+            need = min(float(o.get("mem_gb", 5)), budget)
+            with cond:
+                while used[0] + need > budget:
+                    cond.wait()
+                used[0] += need
+            try:
+                return run_harness(h, o)
+            finally:
+                with cond:
+                    used[0] -= need
+                    cond.notify_all()
+
         with cf.ThreadPoolExecutor(max_workers=jobs) as ex:
             futs = {}
-            for h in sorted(hs, key=lambda h: -harness_opts(cfg, h["pretty_name"].split("::")[-1], tier).get("weight", 1)):
+            for h in sorted(hs, key=lambda h: -harness_opts(cfg, h["pretty_name"].split("::")[-1], tier).get("mem_gb", 5)):
                 nm = h["pretty_name"].split("::")[-1]
                 o = harness_opts(cfg, nm, tier)
                 o["list_functions"] = True
-                futs[ex.submit(run_harness, h, o)] = nm
+                futs[ex.submit(guarded, h, o)] = nm
             for fu in cf.as_completed(futs):
                 r = fu.result()
                 results.append(r)
